@@ -23,7 +23,7 @@ COMPONENTS = {"real": ["workflows.* engine incl. WorkflowHandler.stream_events a
               "stub": ["llama_index_instrumentation"], "sim": ["loop, clock, executor"]}
 ASSUMPTIONS = ["SystemExit/KeyboardInterrupt/CancelledError are never raised by generated steps (asyncio gives them loop-stopping semantics)",
                "stream-hang is judged only at simulator quiescence after the handler is done"]
-EXPECTED_PROBES = ["run-id-reuse-refused", "outcome:result", "outcome:failed", "outcome:cancelled", "outcome:timeout", "ended-with-bodies-running"]
+EXPECTED_PROBES = ["cancelled-body-with-slow-cleanup", "run-id-reuse-refused", "outcome:result", "outcome:failed", "outcome:cancelled", "outcome:timeout", "ended-with-bodies-running"]
 LEVEL_TEXT = ("Seeded exploration over outcome kinds and end-of-run races; oracle on the publish-side record (terminal "
               "event count/kind/position) and on consumer termination at quiescence.")
 LEVEL_NOTE = "Trusted: simulator loop, recording adapter decorator."
@@ -164,8 +164,27 @@ def check_reuse(world, spec, outcome) -> None:
                       terminal_published=True)
 
 
+def gen(tape, cfg):
+    from worlds.engine import gen_spec
+    spec = gen_spec(tape, cfg)
+    for st in spec["steps"]:
+        if not st.get("sync") and tape.chance(12, 100, "slow-cancel?"):
+            st["slow_cancel"] = tape.choice([1, 2], "slow-cancel.d")
+    return spec
+
+
+def gen_handlers(tape, cfg):
+    # programs with @catch_error handlers, recovery budgets and lineages that re-enter a handler (C08's generator), judged by this
+    # property's rules: however a failure is routed or a budget runs out, the run ends once, with the matching terminal event
+    from props import c08
+    return c08.gen(tape, cfg)
+
+
 def run(tape):
-    if tape.draw(12, "c04.arm") == 0:
+    arm = tape.draw(12, "c04.arm")
+    if arm in (1, 2):
+        return simulate(tape, dict(CFG, driver="finish", p_cancel=0, timeouts=[None]), check, gen=gen_handlers, nontrivial=lambda w, s, o: w._nt)
+    if arm == 0:
         return simulate(tape, dict(CFG, p_cancel=0, timeouts=[None], p_baseexc=0, p_pred_raises=0), check_reuse, scenario=scenario_reuse, nontrivial=lambda w, s, o: w._nt)
-    res = simulate(tape, CFG, check, nontrivial=lambda w, s, o: w._nt)
+    res = simulate(tape, CFG, check, gen=gen, nontrivial=lambda w, s, o: w._nt)
     return res
